@@ -203,8 +203,8 @@ def handleModel (j : Json) : Except String Json := do
   let wr := writeModel m comps
   -- the component part, computed on its own: `exportModel` (references avoid the component names) and `exportModelFrom`
   -- with the names `_create_sbml_reactions` starts from (compartment ids included)
-  let plain := exportModel m
-  let from_ := (chooseCompartments m.names comps).bind fun cs => exportModelFrom (refTaken m cs) m
+  let plain := exportModel m.escArgs
+  let from_ := (chooseCompartments m.names comps).bind fun cs => exportModelFrom (refTaken m.escArgs cs) m.escArgs
   let ex := wr.map (·.doc)
   let base := [("unsupported", Json.bool unsupported), ("in_language", Json.bool inLanguage), ("export", exJ sdoccJ wr),
                ("export_plain", exJ sdocJ plain), ("export_from", exJ sdocJ from_),
